@@ -35,6 +35,16 @@ def flatten_pieces(t, nz, memo):
         return [t[1]]
     if t[0] == "call" and isinstance(t[1], str) and t[1].rsplit("::", 1)[-1] == "new" and not t[2] and "String" in t[1]:
         return [""]
+    if t[0] == "call" and isinstance(t[1], str) and t[1].rsplit("::", 1)[-1] == "default" and not t[2]:
+        return [""]               # Default of a string-valued expression
+    if t[0] == "call" and isinstance(t[1], str) and t[1].rsplit("::", 1)[-1] in ("unwrap_or_default",) and len(t[2]) == 1:
+        x = nz(partial.simplify(t[2][0], memo))
+        if x[0] == "ctor" and str(x[1]).rsplit("::", 1)[-1] == "None":
+            return [""]
+        if x[0] == "ctor" and str(x[1]).rsplit("::", 1)[-1] == "Some" and x[2]:
+            return flatten_pieces(x[2][0], nz, memo)
+    if t[0] == "ite" and t[1] in (("lit", True), ("lit", False)):
+        return flatten_pieces(t[2] if t[1][1] else t[3], nz, memo)
     if t[0] == "bin" and t[1] == "+":
         return flatten_pieces(t[2], nz, memo) + flatten_pieces(t[3], nz, memo)
     return [("arg", t, "display")]
